@@ -828,6 +828,7 @@ def c09(ctx):
     spec_vs_impl(ctx, [(121, c[1], 21, c[1]) for c in cases if c[0] == 21], "pwl add == pointwise-sum spec")
     ctx.corr(cases, lambda rid, a: len(a[0]) + len(a[-2 if rid == 20 else -3]) >= 5)
     # histories of add / mul_scalar / copy with aliasing monitor
+    hist_items = []
     nh = ctx.n(400 if ctx.tier == "quick" else 5000)
     for _ in range(nh):
         kind = r.choice(["pwc", "pwl"])
@@ -870,6 +871,11 @@ def c09(ctx):
                             ctx.violate("two objects share an array after %r" % ops, kind + " history", repr(ops))
             ctx.check()
             ctx.nontrivial(("hist", kind, repr(ops), core.enc([list(e) for e in exact])))
+            if kind == "pwc":
+                mops = [[Nat(0), Nat(o_[1]), Nat(o_[2])] if o_[0] == "add" else
+                        [Nat(1), Nat(o_[1]), Fr(o_[2])] if o_[0] == "mul" else [Nat(2), Nat(o_[1])] for o_ in ops]
+                hist_items.append(([[list(e[0]), list(e[1])] for e in exact], mops,
+                                   [core.canon(ob) for ob in objs]))
             for o_, tr in zip(objs, truth):
                 cur = [[Fr(v).limit_denominator(10 ** 9) for v in a.tolist()] for a in _arrs(o_)]
                 ux = sorted(set(x for _, e in tr for x in e[0]))
@@ -896,6 +902,7 @@ def c09(ctx):
         except Exception as e:
             ctx.violate("history raises %s: %s" % (type(e).__name__, e), kind + " history", repr(ops),
                         base=core.enc([list(e_) for e_ in exact]))
+    ctx.corr_values("history", 94, [([b, o_], [iv, []], None) for b, o_, iv in hist_items], functional=True)
     # order independence: a+b+c in all orders
     for _ in range(ctx.n(150 if ctx.tier == "quick" else 2000)):
         fs = [gen.rand_pwl(r, 3, 8) for _ in range(3)]
@@ -1819,6 +1826,7 @@ def c19(ctx):
     ps = ctx.ps
     tmp = tempfile.mkdtemp(prefix="c19_")
     fn = os.path.join(tmp, "t.txt")
+    io_items = []
     try:
         for it in range(ctx.n(500 if ctx.tier == "quick" else 8000)):
             ntr = r.randint(1, 5)
@@ -1850,6 +1858,17 @@ def c19(ctx):
                 ctx.violate("save/load raises %s: %s" % (type(e).__name__, e), "save/load", repr((trains, sep, prec)))
                 continue
             desc = repr((trains, sep, prec, cm))
+            # token-level model (coq/ModelIO.v): the saved file and the loaded trains
+            toks = [["%.*e" % (prec, x) for x in t] for t in trains]
+            codes = lambda st: [Nat(ord(c)) for c in st]
+            m_save_args = [codes(sep), [[codes(tk) for tk in t] for t in toks]]
+            io_items.append((90, m_save_args, [[float(ord(c)) for c in ln] for ln in lines[:-1]],
+                             lambda v: [[float(c) for c in ln] for ln in v]))
+            flines = open(fn).read().split("\n")[:-1]
+            for ie, got in ((False, back), (True, back_ne)):
+                io_items.append((91, [codes(sep), codes(cm), ie, [codes(ln) for ln in flines]],
+                                 [sorted(b.spikes.tolist()) for b in got],
+                                 lambda v: [sorted(float("".join(chr(int(c)) for c in tk)) for tk in t) for t in v]))
             if len(back) != len(trains):
                 ctx.violate("number of trains changed by the round trip", "save/load", desc, expected=len(trains), got=len(back))
                 continue
@@ -1909,6 +1928,8 @@ def c19(ctx):
                             repr((rows, str(start), str(binw))), expected=exp, got=res)
             cases.append((81, [start, binw, rows[0]]))
         ctx.corr(cases, lambda rid, a: True, functional=True)
+        ctx.corr_values("save_lines", 90, [(a, iv, d) for r_, a, iv, d in io_items if r_ == 90], functional=True)
+        ctx.corr_values("load_lines", 91, [(a, iv, d) for r_, a, iv, d in io_items if r_ == 91], functional=True)
     finally:
         import shutil
         shutil.rmtree(tmp, ignore_errors=True)
@@ -1921,6 +1942,7 @@ def c20(ctx):
     r = ctx.rng
     ps = ctx.ps
     cases = []
+    psth_items = []
     lists, g = ctx.space.random_lists(n=600 if ctx.tier == "quick" else 8000, maxtr=5, maxn=6, g=16)
     lists = ctx.part(lists)
     for L in lists:
@@ -1965,8 +1987,37 @@ def c20(ctx):
         if bad:
             ctx.violate("psth: " + bad, "psth", [L, Fr(bs)], got=p)
         cases.append((82, [[Fr(i, nb) for i in range(nb + 1)], sorted(Fr(x) for t in L for x in t)]))
+        if bs == 1.0 / nb:
+            psth_items.append(([Z, ONE, Nat(nb), sorted(Fr(x) for t in L for x in t)], [xs, ys], None))
     ctx.corr(cases, lambda rid, a: True, functional=True)
-    # Poisson generator
+    ctx.corr_values("psth", 92, psth_items, functional=True)
+    # Poisson generator with recorded draws against the model (cumulative sums below T_end)
+    import pyspike.spikes as spk_mod
+    pitems = []
+    real_exp = np.random.exponential
+    for it in range(ctx.n(200 if ctx.tier == "quick" else 3000)):
+        pool = [Fr(r.randint(1, 64), 64) for _ in range(400)]
+        used = []
+
+        def fake_exp(scale, size, _pool=pool, _used=used):
+            k = len(_used)
+            chunk = _pool[k:k + int(size)]
+            _used.extend(chunk)
+            return np.array([float(x) for x in chunk])
+        rate = r.choice([0.5, 1.0, 2.0, 4.0])
+        t0 = Fr(r.randint(-8, 8), 4)
+        t1 = t0 + Fr(r.randint(1, 40), 4)
+        np.random.exponential = fake_exp
+        try:
+            st = core.call_impl(lambda: spk_mod.generate_poisson_spikes(rate, (float(t0), float(t1))))
+        finally:
+            np.random.exponential = real_exp
+        ctx.check()
+        if isinstance(st, core.Err):
+            ctx.violate("generate_poisson_spikes raises", "generate_poisson_spikes", [t0, t1, used[:20]], got=st)
+            continue
+        pitems.append(([t0, t1, list(used)], st[0], None))
+    ctx.corr_values("poisson_spikes", 93, pitems, functional=True)
     for it in range(ctx.n(300 if ctx.tier == "quick" else 4000)):
         np.random.seed((ctx.seed + 7919 * it + ctx.shard) % (2 ** 31))
         rate = r.choice([0.05, 0.5, 1.0, 5.0, 20.0])
